@@ -18,10 +18,11 @@ from infretis.classes.engines.enginebase import EngineBase
 class LatticeEngine(EngineBase):
     """Random walk on Z driven through EngineBase.propagate."""
 
-    def __init__(self, wall=-3, timestep=1.0, subcycles=1, aux=False):
+    def __init__(self, wall=-3, timestep=1.0, subcycles=1, aux=False, big_cv=0.0):
         super().__init__("Lattice walk engine", timestep, subcycles)
         self.wall = int(wall)
         self.aux = bool(aux)            # also write <name>.aux next to every trajectory file
+        self.big_cv = float(big_cv)     # non-zero: a second order column (collective variable) big_cv + x
         self.ext = "lat"
         self.name = "lattice"
         self._beta = 1.0
@@ -76,6 +77,8 @@ class LatticeEngine(EngineBase):
                 order = self.calculate_order(
                     system, xyz=np.array([[float(x)]]),
                     vel=np.zeros((1, 1)), box=np.zeros(3))
+                if self.big_cv:
+                    order = list(order) + [self.big_cv + x]
                 snapshot = {"order": order, "config": (traj_file, step_nr),
                             "vel_rev": reverse}
                 phase_point = self.snapshot_to_system(system, snapshot)
